@@ -4,6 +4,7 @@ import (
 	"bytes"
 	"context"
 	"errors"
+	"fmt"
 	"io"
 	"net"
 	"sync"
@@ -256,227 +257,332 @@ func c08(c *hx.Ctx) {
 	c.Agree = "c08_agree"
 	c.Rule = "rwc.PacketConn and stream_packet.Session: packet sequences (0..10 packets, sizes 1..max incl. max, max in 4..300, empty messages for Session) written by the real writer; single writer: one Write call per WriteTo/SendMsg is checked, the recorded byte stream is re-chunked (1-byte, all-at-once, random; a quarter with the last bytes delivered together with io.EOF) into the real receiver; 2..3 concurrent writers: through a pipe that delivers every Write call separately while the real receiver runs; malformed: zero / over-limit / 2^32-1 prefixes, truncated frames, trailing garbage; ReadFrom with short buffers; non-trivial = distinct stream with at least one packet delivered or a rejected prefix"
 	for i := 0; i < c.N; i++ {
-		session := c.Rng.Intn(5) < 2
-		lo := 1
-		if session {
-			lo = 0
+		i := i
+		// a panic in harness code must not abort the run
+		if p, v := hx.Catch(func() { c08scenario(c, i) }); p {
+			c.Failf("scenario-panic", map[string]any{"kind": "c08/scenario", "index": i, "panic": fmt.Sprint(v)}, "scenario %d panicked outside the guarded calls of the implementation: %v", i, v)
 		}
-		maxp := 4 + c.Rng.Intn(60)
-		if c.Rng.Intn(6) == 0 {
-			maxp = 200 + c.Rng.Intn(100)
+	}
+}
+
+// frameSpan is one frame found in a byte stream by the reference parser.
+type frameSpan struct {
+	start, end int
+	payload    []byte
+}
+
+// refFrames parses 4-byte little-endian length ++ payload frames; ok is
+// false if the stream does not end on a frame boundary.
+func refFrames(stream []byte) (out []frameSpan, ok bool) {
+	off := 0
+	for off < len(stream) {
+		if off+4 > len(stream) {
+			return out, false
 		}
-		np := c.Rng.Intn(7)
-		if c.Rng.Intn(10) == 0 {
-			np = 10
+		n := int(uint32(stream[off]) | uint32(stream[off+1])<<8 | uint32(stream[off+2])<<16 | uint32(stream[off+3])<<24)
+		if n < 0 || off+4+n > len(stream) {
+			return out, false
 		}
-		pkts := genPackets(c, np, lo, maxp)
-		writers := 1
-		if c.Rng.Intn(3) == 0 {
-			writers = 2 + c.Rng.Intn(2)
+		out = append(out, frameSpan{start: off, end: off + 4 + n, payload: stream[off+4 : off+4+n]})
+		off += 4 + n
+	}
+	return out, true
+}
+
+func c08scenario(c *hx.Ctx, i int) {
+	session := c.Rng.Intn(5) < 2
+	lo := 1
+	if session {
+		lo = 0
+	}
+	maxp := 4 + c.Rng.Intn(60)
+	if c.Rng.Intn(6) == 0 {
+		maxp = 200 + c.Rng.Intn(100)
+	}
+	np := c.Rng.Intn(7)
+	if c.Rng.Intn(10) == 0 {
+		np = 10
+	}
+	writers := 1
+	if c.Rng.Intn(3) == 0 {
+		writers = 2 + c.Rng.Intn(2)
+	}
+	name := map[bool]string{false: "pktconn", true: "session"}[session]
+	if writers > 1 {
+		liveCase(c, name, session, writers, maxp)
+		return
+	}
+	pkts := genPackets(c, np, lo, maxp)
+	var writes [][]byte
+	var werrs []error
+	var split []int
+	wdesc := map[string]any{"kind": name + "/write", "max": maxp, "packets": hexes(pkts)}
+	if p, v := hx.Catch(func() { writes, werrs, split = writeAll(session, pkts, 1, uint32(maxp)) }); p {
+		c.Failf("writer-panic", wdesc, "WriteTo/SendMsg panicked: %v", v)
+		return
+	}
+	wdesc["writes"] = hexes(writes)
+	if len(werrs) > 0 {
+		c.Failf("write-error", wdesc, "writer returned %v", werrs[0])
+	}
+	if len(split) > 0 {
+		c.Failf("frame-split-across-writes", wdesc, "a WriteTo/SendMsg call produced %v Write calls on the stream instead of exactly one (atomicity assumption of the concurrent-writer theorem)", split)
+	}
+	// what reached the stream, independent of how it was split into Write calls
+	var stream []byte
+	for _, w := range writes {
+		stream = append(stream, w...)
+	}
+	var sent [][]byte
+	for _, p := range pkts {
+		if len(p) > 0 || session {
+			sent = append(sent, p)
 		}
-		name := map[bool]string{false: "pktconn", true: "session"}[session]
-		if writers > 1 {
-			liveCase(c, name, session, pkts, writers, maxp)
-			continue
+	}
+	frames, ok := refFrames(stream)
+	var order [][]byte
+	for _, f := range frames {
+		order = append(order, f.payload)
+	}
+	if !ok || !eq2(order, sent) {
+		c.Failf("writes-not-the-packets", wdesc, "the bytes on the stream %x are not the frames (4-byte little-endian length ++ payload) of the packets sent, in order", stream)
+		return // nothing well defined to feed the receiver with
+	}
+	if i%6 == 0 && len(frames) > 0 {
+		f := frames[c.Rng.Intn(len(frames))]
+		c.Case(hx.App("Fr", hx.Bytes(f.payload), hx.Bytes(stream[f.start:f.end])), map[string]any{"kind": name + "/frame", "frame": hx.Hex(stream[f.start:f.end])})
+		c.Class(name + "/frame")
+	}
+	// receiver
+	kind := "valid"
+	expect := order
+	mustErr := false
+	data := stream
+	switch c.Rng.Intn(10) {
+	case 0, 1, 3: // bad prefix after k packets
+		k := c.Rng.Intn(len(frames) + 1)
+		cutAt := len(stream)
+		if k < len(frames) {
+			cutAt = frames[k].start
 		}
-		writes, werrs, split := writeAll(session, pkts, writers, uint32(maxp))
-		// writer oracle: one write per packet, each exactly prefix ++ payload, per-writer order kept
-		var order [][]byte
-		var stream []byte
-		wdesc := map[string]any{"kind": name + "/write", "packets": hexes(pkts), "writers": writers, "writes": hexes(writes)}
-		if len(werrs) > 0 {
-			c.Failf("write-error", wdesc, "writer returned %v", werrs[0])
-		}
-		expectWrites := 0
-		for _, p := range pkts {
-			if len(p) > 0 || session {
-				expectWrites++
+		data = append([]byte{}, stream[:cutAt]...)
+		expect = order[:k]
+		var bad uint32
+		switch c.Rng.Intn(4) {
+		case 0:
+			bad, kind = 0, "zero-prefix"
+			if session {
+				kind = "" // an empty message for Session
 			}
-		}
-		if len(split) > 0 {
-			c.Failf("frame-split-across-writes", wdesc, "a WriteTo/SendMsg call produced %v Write calls on the stream instead of exactly one (atomicity assumption of the concurrent-writer theorem)", split)
-		}
-		if len(writes) != expectWrites {
-			c.Failf("write-count", wdesc, "%d packets produced %d stream writes", expectWrites, len(writes))
-		}
-		for _, w := range writes {
-			stream = append(stream, w...)
-			if len(w) < 4 || !bytes.Equal(w[:4], u32le(uint32(len(w)-4))) {
-				c.Failf("frame-malformed", wdesc, "stream write %x is not a 4-byte little-endian length followed by that many bytes", w)
-				continue
-			}
-			order = append(order, w[4:])
-		}
-		if !sameMultiset(order, pkts) || !perWriterOrder(order, pkts, writers) {
-			c.Failf("writes-not-the-packets", wdesc, "payloads on the stream %v are not the packets sent (per-writer order kept)", hexes(order))
-		}
-		if i%6 == 0 && len(writes) > 0 {
-			k := c.Rng.Intn(len(writes))
-			c.Case(hx.App("Fr", hx.Bytes(writes[k][4:]), hx.Bytes(writes[k])), map[string]any{"kind": name + "/frame", "write": hx.Hex(writes[k])})
-			c.Class(name + "/frame")
-		}
-		// receiver
-		kind := "valid"
-		expect := order
-		mustErr := false
-		data := stream
-		switch c.Rng.Intn(10) {
-		case 0, 1, 3: // bad prefix after k packets
-			k := 0
-			if len(writes) > 0 {
-				k = c.Rng.Intn(len(writes) + 1)
-			}
-			data = nil
-			for _, w := range writes[:k] {
-				data = append(data, w...)
-			}
-			expect = order[:k]
-			var bad uint32
-			switch c.Rng.Intn(4) {
-			case 0:
-				bad, kind = 0, "zero-prefix"
-				if session {
-					kind = "" // an empty message for Session
-				}
-			case 1:
-				bad, kind = uint32(maxp)+1, "over-limit"
-			case 2:
-				bad, kind = 0xffffffff, "over-limit"
-			default:
-				bad, kind = uint32(maxp)+1+uint32(c.Rng.Intn(1<<20)), "over-limit"
-			}
-			if kind == "" {
-				kind = "valid"
-				expect = append(append([][]byte{}, expect...), []byte{})
-				data = append(data, u32le(0)...)
-			} else {
-				mustErr = true
-				data = append(data, u32le(bad)...)
-				data = append(data, c.RandBytes(c.Rng.Intn(12))...)
-				for _, w := range writes[k:] { // later packets must not be misframed into delivery
-					data = append(data, w...)
-				}
-			}
-		case 2: // truncated
-			if len(stream) > 0 {
-				cut := c.Rng.Intn(len(stream))
-				data = stream[:cut]
-				kind = "truncated"
-				expect = nil
-				off := 0
-				for k, w := range writes {
-					if off+len(w) <= cut {
-						expect = append(expect, order[k])
-						off += len(w)
-					} else {
-						break
-					}
-				}
-			}
-		}
-		chunks, cname := chunksFor(c, len(data))
-		de := c.Rng.Intn(4) == 0
-		got, end, _, closed := readAll(session, data, chunks, de, uint32(maxp), 1+c.Rng.Intn(3), maxp+8)
-		desc := map[string]any{"kind": name + "/" + kind, "eof_with_last_read": de, "max": maxp, "chunking": cname, "chunks": chunks, "data": hx.Hex(data), "writers": writers, "expected": hexes(expect), "got": hexes(got), "end": end}
-		c.Case(hx.App("Pk", hx.Bool(session), hx.Z(int64(maxp)), natList(chunks), hx.Bytes(data), hx.BytesList(got), hx.Nat(end)), desc)
-		c.Class(name + "/" + kind + "/" + cname)
-		if de {
-			c.Class(name + "/eof-with-last-read")
-		}
-		if len(got) > 0 || mustErr {
-			c.Nontrivial(name + hx.Hex(data))
-		}
-		_ = closed
-		if !eq2(got, expect) {
-			c.Failf("packets-not-preserved/"+kind, desc, "receiver delivered %v, expected exactly %v", hexes(got), hexes(expect))
-		}
-		switch kind {
-		case "valid":
-			if end != 1 {
-				c.Failf("clean-end-misreported", desc, "after the last packet the receiver reported class %d, expected io.EOF", end)
-			}
-		case "truncated":
-			if end != 1 && end != 2 {
-				c.Failf("truncation-misreported", desc, "a truncated stream ended with class %d", end)
-			}
+		case 1:
+			bad, kind = uint32(maxp)+1, "over-limit"
+		case 2:
+			bad, kind = 0xffffffff, "over-limit"
 		default:
-			if end != 3 {
-				c.Failf("bad-prefix-not-an-error/"+kind, desc, "a %s length prefix ended the connection with class %d (0 none, 1 EOF, 2 unexpected EOF), expected a framing error", kind, end)
+			bad, kind = uint32(maxp)+1+uint32(c.Rng.Intn(1<<20)), "over-limit"
+		}
+		if kind == "" {
+			kind = "valid"
+			expect = append(append([][]byte{}, expect...), []byte{})
+			data = append(data, u32le(0)...)
+		} else {
+			mustErr = true
+			data = append(data, u32le(bad)...)
+			data = append(data, c.RandBytes(c.Rng.Intn(12))...)
+			data = append(data, stream[cutAt:]...) // later packets must not be misframed into delivery
+		}
+	case 2: // truncated
+		if len(stream) > 0 {
+			cut := c.Rng.Intn(len(stream))
+			data = stream[:cut]
+			kind = "truncated"
+			expect = nil
+			for _, f := range frames {
+				if f.end <= cut {
+					expect = append(expect, f.payload)
+				}
 			}
 		}
-		// short reader buffer (PacketConn only)
-		if !session && kind == "valid" && len(order) > 0 && i%2 == 0 {
-			bl := c.Rng.Intn(maxp + 2)
-			g2, e2, shorts, _ := readAll(false, data, chunks, de, uint32(maxp), 2, bl)
-			c.Eval()
-			sdesc := map[string]any{"kind": "pktconn/short-buffer", "buflen": bl, "data": hx.Hex(data), "got": hexes(g2), "shorts": shorts, "end": e2}
-			for k := range order {
-				if k >= len(g2) {
-					c.Failf("short-buffer-lost-packet", sdesc, "packet %d was not delivered", k)
-					break
-				}
-				want := order[k]
-				ws := len(want) > bl
-				if ws {
-					want = want[:bl]
-				}
-				if !bytes.Equal(g2[k], want) || shorts[k] != ws {
-					c.Failf("short-buffer-misreported", sdesc, "packet %d (%d bytes) read into %d bytes gave %x short=%v", k, len(order[k]), bl, g2[k], shorts[k])
-				}
-				if k == 0 || ws {
-					c.Case(hx.App("Rf", hx.Nat(bl), hx.Bytes(order[k]), hx.Bytes(g2[k]), hx.Bool(shorts[k])), sdesc)
-					c.Class("pktconn/readfrom")
-				}
+	}
+	chunks, cname := chunksFor(c, len(data))
+	de := c.Rng.Intn(4) == 0
+	desc := map[string]any{"kind": name + "/" + kind, "eof_with_last_read": de, "max": maxp, "chunking": cname, "chunks": chunks, "data": hx.Hex(data), "expected": hexes(expect)}
+	var got [][]byte
+	var end int
+	if p, v := hx.Catch(func() { got, end, _, _ = readAll(session, data, chunks, de, uint32(maxp), 1+c.Rng.Intn(3), maxp+8) }); p {
+		c.Failf("receiver-panic", desc, "the receiver panicked: %v", v)
+		return
+	}
+	desc["got"], desc["end"] = hexes(got), end
+	c.Case(hx.App("Pk", hx.Bool(session), hx.Z(int64(maxp)), natList(chunks), hx.Bytes(data), hx.BytesList(got), hx.Nat(end)), desc)
+	c.Class(name + "/" + kind + "/" + cname)
+	if de {
+		c.Class(name + "/eof-with-last-read")
+	}
+	if len(got) > 0 || mustErr {
+		c.Nontrivial(name + hx.Hex(data))
+	}
+	if !eq2(got, expect) {
+		c.Failf("packets-not-preserved/"+kind, desc, "receiver delivered %v, expected exactly %v", hexes(got), hexes(expect))
+	}
+	switch kind {
+	case "valid":
+		if end != 1 {
+			c.Failf("clean-end-misreported", desc, "after the last packet the receiver reported class %d, expected io.EOF", end)
+		}
+	case "truncated":
+		if end != 1 && end != 2 {
+			c.Failf("truncation-misreported", desc, "a truncated stream ended with class %d", end)
+		}
+	default:
+		if end != 3 {
+			c.Failf("bad-prefix-not-an-error/"+kind, desc, "a %s length prefix ended the connection with class %d (0 none, 1 EOF, 2 unexpected EOF), expected a framing error", kind, end)
+		}
+	}
+	// short reader buffer (PacketConn only)
+	if !session && kind == "valid" && len(order) > 0 && i%2 == 0 {
+		bl := c.Rng.Intn(maxp + 2)
+		var g2 [][]byte
+		var e2 int
+		var shorts []bool
+		sdesc := map[string]any{"kind": "pktconn/short-buffer", "buflen": bl, "data": hx.Hex(data)}
+		if p, v := hx.Catch(func() { g2, e2, shorts, _ = readAll(false, data, chunks, de, uint32(maxp), 2, bl) }); p {
+			c.Failf("receiver-panic", sdesc, "ReadFrom with a %d-byte buffer panicked: %v", bl, v)
+			return
+		}
+		c.Eval()
+		sdesc["got"], sdesc["shorts"], sdesc["end"] = hexes(g2), shorts, e2
+		for k := range order {
+			if k >= len(g2) || k >= len(shorts) {
+				c.Failf("short-buffer-lost-packet", sdesc, "packet %d was not delivered", k)
+				break
+			}
+			want := order[k]
+			ws := len(want) > bl
+			if ws {
+				want = want[:bl]
+			}
+			if !bytes.Equal(g2[k], want) || shorts[k] != ws {
+				c.Failf("short-buffer-misreported", sdesc, "packet %d (%d bytes) read into %d bytes gave %x short=%v", k, len(order[k]), bl, g2[k], shorts[k])
+			}
+			if k == 0 || ws {
+				c.Case(hx.App("Rf", hx.Nat(bl), hx.Bytes(order[k]), hx.Bytes(g2[k]), hx.Bool(shorts[k])), sdesc)
+				c.Class("pktconn/readfrom")
 			}
 		}
 	}
 }
 
-// liveCase: concurrent writers over a pipe that delivers each Write call
-// separately while the receiver runs; checks the one-Write-per-frame
-// atomicity assumption and that the receiver delivers the packets in the
-// order in which the stream saw the writes.
-func liveCase(c *hx.Ctx, name string, session bool, pkts [][]byte, writers int, maxp int) {
-	pipe, got, end, werrs := liveRun(session, pkts, writers, uint32(maxp))
-	desc := map[string]any{"kind": name + "/concurrent-writers", "max": maxp, "writers": writers, "packets": hexes(pkts), "write_sizes": pipe.sizes, "data": hx.Hex(pipe.all), "got": hexes(got), "end": end}
-	c.Case(hx.App("Pk", hx.Bool(session), hx.Z(int64(maxp)), natList(pipe.sizes), hx.Bytes(pipe.all), hx.BytesList(got), hx.Nat(end)), desc)
+// selfDescribing builds packet seq of writer w: [w, seq, filler...] with a
+// filler that is a function of (w, seq, position), so that any packet made of
+// bytes of two different frames is recognisable.
+func selfDescribing(w, seq, size int) []byte {
+	if size < 2 {
+		size = 2
+	}
+	p := make([]byte, size)
+	p[0], p[1] = byte(w), byte(seq)
+	for k := 2; k < size; k++ {
+		p[k] = byte(0x80 | (w*53+seq*17+k*7)&0x7f)
+	}
+	return p
+}
+
+// liveCase: N concurrent writers of self-describing packets over a pipe that
+// delivers each Write call to the concurrently running real receiver as its
+// own chunk. Checks the one-Write-per-frame atomicity assumption and that
+// every packet arrives exactly once, intact, in per-writer order.
+func liveCase(c *hx.Ctx, name string, session bool, writers int, maxp int) {
+	if maxp < 6 {
+		maxp = 6
+	}
+	per := 2 + c.Rng.Intn(5)
+	var pkts [][]byte // writer w sends pkts[w], pkts[w+writers], ...
+	for seq := 0; seq < per; seq++ {
+		for w := 0; w < writers; w++ {
+			sz := 2 + c.Rng.Intn(10)
+			if sz > maxp {
+				sz = maxp
+			}
+			pkts = append(pkts, selfDescribing(w, seq, sz))
+		}
+	}
+	desc := map[string]any{"kind": name + "/concurrent-writers", "max": maxp, "writers": writers, "packets": hexes(pkts)}
+	var pipe *livePipe
+	var got [][]byte
+	var end int
+	var werrs []error
+	if p, v := hx.Catch(func() { pipe, got, end, werrs = liveRun(session, pkts, writers, uint32(maxp)) }); p {
+		c.Failf("concurrent-writers-panic", desc, "writers/receiver panicked: %v", v)
+		return
+	}
+	pipe.mu.Lock()
+	sizes := append([]int{}, pipe.sizes...)
+	all := append([]byte{}, pipe.all...)
+	pipe.mu.Unlock()
+	desc["write_sizes"], desc["data"], desc["got"], desc["end"] = sizes, hx.Hex(all), hexes(got), end
+	c.Case(hx.App("Pk", hx.Bool(session), hx.Z(int64(maxp)), natList(sizes), hx.Bytes(all), hx.BytesList(got), hx.Nat(end)), desc)
 	c.Class(name + "/concurrent-writers")
 	if len(got) > 0 {
-		c.Nontrivial(name + "live" + hx.Hex(pipe.all))
+		c.Nontrivial(name + "live" + hx.Hex(all))
 	}
 	if len(werrs) > 0 {
 		c.Failf("write-error", desc, "writer returned %v", werrs[0])
 	}
-	expectWrites := 0
-	for _, p := range pkts {
-		if len(p) > 0 || session {
-			expectWrites++
-		}
-	}
-	if len(pipe.sizes) != expectWrites {
-		c.Failf("frame-split-across-writes", desc, "%d packets reached the stream in %d Write calls (one Write per frame is the atomicity assumption)", expectWrites, len(pipe.sizes))
-	}
-	// every Write call is one whole frame
-	var order [][]byte
+	// atomicity: every Write call the stream saw is exactly one whole frame
+	whole := len(sizes) == len(pkts)
 	off := 0
-	for _, sz := range pipe.sizes {
-		w := pipe.all[off : off+sz]
+	for _, sz := range sizes {
+		if off+sz > len(all) {
+			whole = false
+			break
+		}
+		w := all[off : off+sz]
 		off += sz
 		if len(w) < 4 || !bytes.Equal(w[:4], u32le(uint32(len(w)-4))) {
-			c.Failf("frame-split-across-writes", desc, "Write call %x is not one whole frame (4-byte little-endian length followed by that many bytes)", w)
-			return
+			whole = false
 		}
-		order = append(order, w[4:])
 	}
-	if !sameMultiset(order, pkts) || !perWriterOrder(order, pkts, writers) {
-		c.Failf("writes-not-the-packets", desc, "payloads on the stream %v are not the packets sent (per-writer order kept)", hexes(order))
+	if !whole {
+		c.Failf("frame-split-across-writes", desc, "%d packets reached the stream in %d Write calls of sizes %v: not one Write call per whole frame (atomicity assumption of the concurrent-writer theorem)", len(pkts), len(sizes), sizes)
 	}
-	if !eq2(got, order) {
-		c.Failf("packets-not-preserved/concurrent", desc, "receiver delivered %v, the stream carried %v", hexes(got), hexes(order))
+	// the receiver must deliver every packet exactly once, intact, in per-writer order
+	next := make([]int, writers)
+	misframed := ""
+	for k, g := range got {
+		if len(g) < 2 || int(g[0]) >= writers {
+			misframed = fmt.Sprintf("delivered packet %d (%x) is not a packet any writer sent", k, g)
+			break
+		}
+		w, seq := int(g[0]), int(g[1])
+		idx := seq*writers + w
+		if seq != next[w] || idx >= len(pkts) || !bytes.Equal(g, pkts[idx]) {
+			misframed = fmt.Sprintf("delivered packet %d (%x) is not packet %d of writer %d (%x)", k, g, next[w], w, safeIdx(pkts, next[w]*writers+w))
+			break
+		}
+		next[w]++
 	}
-	if end != 1 {
-		c.Failf("clean-end-misreported", desc, "after the last packet the receiver reported class %d, expected io.EOF", end)
+	if misframed == "" {
+		for w := 0; w < writers; w++ {
+			if next[w] != per {
+				misframed = fmt.Sprintf("writer %d sent %d packets, %d were delivered", w, per, next[w])
+				break
+			}
+		}
 	}
+	if misframed == "" && end != 1 {
+		misframed = fmt.Sprintf("after the last packet the receiver reported class %d, expected io.EOF", end)
+	}
+	if misframed != "" {
+		c.Failf("concurrent-writers-misframed", desc, "%s", misframed)
+	}
+}
+
+func safeIdx(l [][]byte, i int) []byte {
+	if i < 0 || i >= len(l) {
+		return nil
+	}
+	return l[i]
 }
 
 func sameMultiset(a, b [][]byte) bool {
